@@ -144,11 +144,12 @@ Section Storage.
     | _, _, _ => PPanic
     end.
 
-  (* PartialEq: the leaf's is DERIVED: elements == && forced == && PhantomData == *)
+  (* PartialEq: the leaf compares `elements` only (manual impl since repo commit beb89003dcf;
+     before it the impl was derived and also compared the COLT flag `forced`) *)
   Fixpoint speq (h : nat) (a b : sght) : bool :=
     match h, a, b with
     | 0, SLeaf sa fa, SLeaf sb fb =>
-        match st_eq sa sb with Some e => e && Bool.eqb fa fb | None => false end
+        match st_eq sa sb with Some e => e | None => false end
     | S h', SInner ca, SInner cb =>
       if negb (Nat.eqb (length ca) (length cb)) then false
       else forallb (fun kc => match scget cb (fst kc) with
@@ -348,21 +349,20 @@ Definition xans_eqb (x y : xans) : bool :=
   end.
 
 (* cause of a deviation of the implementation from the specification, read off the MODEL's
-   state before the operation: 1 = some leaf is `forced` and the op is ==;
-   2 = some inner node holds an empty child and the op looks at children; 3 = unexplained *)
+   state before the operation: 2 = some inner node holds an empty child and the op looks at
+   children; 3 = unexplained.  (Class 1 used to be "some leaf is `forced` and the op is ==":
+   fixed in /repo by beb89003dcf.) *)
 Definition cause (nk : nat) (p : sght * sght) (o : xop) : N :=
-  let forced := has_forced nk (fst p) || has_forced nk (snd p) in
   let empty := has_empty_child nk (fst p) || has_empty_child nk (snd p) in
   match o with
-  | XEq _ => if forced then 1 else if empty then 2 else 3
-  | XCmp _ | XMerge _ | XChildDrain _ _ => if empty then 2 else 3
+  | XEq _ | XCmp _ | XMerge _ | XChildDrain _ _ => if empty then 2 else 3
   | _ => 3
   end%N.
 
 (* run model and specification side by side against the implementation's answers:
    (all answers equal the model's, all equal the spec's, class of the deviations) where class is
-   0 = there is no deviation, 1 = all explained by `forced`, 2 = all explained, some by an
-   empty child, 3 = some deviation unexplained *)
+   0 = there is no deviation, 2 = all explained by an empty child, 3 = some deviation
+   unexplained *)
 Fixpoint xrun (k : kind) (a nk : nat) (p : sght * sght) (q : bag * bag) (ops : list xop)
          (impl : list xans) : bool * bool * N :=
   match ops, impl with
